@@ -52,6 +52,7 @@ fn regress(id: &str, ctx: &Ctx, f: fn(&Ctx, &Value)) {
 props! {
     "C03" => c03,
     "C05" => c05,
+    "C06" => c06,
     "C07" => c07,
     "C11" => c11,
     "C12" => c12,
